@@ -1273,6 +1273,62 @@ def check_multi_key_file(ctx: Ctx, rng: Any, keys: List[Tuple[str, Any]], d: str
     return [], label
 
 
+def ec_private_der(curve: Any, priv: Any, point_form: str, container: str) -> bytes:
+    """SEC1 ECPrivateKey (RFC 5915), optionally inside PKCS#8, built field by field so that the optional public
+    point can be left out or given compressed"""
+    from cryptography.hazmat.primitives.serialization import Encoding, PublicFormat
+    from asyncssh.asn1 import der_encode, ObjectIdentifier, BitString, TaggedDERObject
+    oids = {'secp256r1': '1.2.840.10045.3.1.7', 'secp384r1': '1.3.132.0.34', 'secp521r1': '1.3.132.0.35'}
+    size = (curve.key_size + 7) // 8
+    d = priv.private_numbers().private_value.to_bytes(size, 'big')
+    items: List[Any] = [1, d]
+    if container == 'sec1':
+        items.append(TaggedDERObject(0, ObjectIdentifier(oids[curve.name])))
+    if point_form != 'absent':
+        fmt = PublicFormat.CompressedPoint if point_form == 'compressed' else PublicFormat.UncompressedPoint
+        items.append(TaggedDERObject(1, BitString(priv.public_key().public_bytes(Encoding.X962, fmt))))
+    sec1 = der_encode(tuple(items))
+    if container == 'sec1':
+        return sec1
+    return der_encode((0, (ObjectIdentifier('1.2.840.10045.2.1'), ObjectIdentifier(oids[curve.name])), sec1))
+
+
+def check_ec_point_forms(d: str) -> Tuple[List[Failure], int]:
+    from cryptography.hazmat.primitives.asymmetric import ec
+    fails: List[Failure] = []
+    n = 0
+    for curve in (ec.SECP256R1(), ec.SECP384R1(), ec.SECP521R1()):
+        priv = ec.generate_private_key(curve)
+        ref = None
+        for container in ('sec1', 'pkcs8'):
+            for form in ('uncompressed', 'absent', 'compressed'):
+                n += 1
+                der = ec_private_der(curve, priv, form, container)
+                rep = {'kind': 'ec-point-form', 'curve': curve.name, 'form': form, 'container': container, 'der': der.hex()}
+                try:
+                    k = asyncssh.import_private_key(der)
+                    blob = k.public_data
+                    line = k.export_public_key('openssh')
+                except Exception as e:      # noqa: BLE001
+                    fails.append(Failure(f'ec-private-key:{form}-public-point:import-fails:{type(e).__name__}',
+                                         f'{curve.name} {container} private key with {form} public point: {e}', rep))
+                    continue
+                if ref is None:
+                    ref = blob
+                if blob != ref:
+                    fails.append(Failure(
+                        f'ec-private-key:{form}-public-point:exported-public-key-differs',
+                        f'{curve.name} {container} private key whose public point is {form}: public_data has '
+                        f'{len(blob)} bytes, the same key read from the uncompressed form has {len(ref)}', rep))
+                elif have_ssh_keygen():
+                    path = write_file(os.path.join(d, f'ecpf-{curve.name}-{container}-{form}.pub'), line, 0o644)
+                    rc, _o, err = run_kg(['-l', '-f', path])
+                    if rc != 0:
+                        fails.append(Failure(f'ec-private-key:{form}-public-point:ssh-keygen-rejects-export',
+                                             f'{curve.name} {container}: {err[:80]!r}', rep))
+    return fails, n
+
+
 def oracle(ctx: Ctx) -> OracleResult:
     res = OracleResult()
     hist = Hist()
@@ -1286,6 +1342,14 @@ def oracle(ctx: Ctx) -> OracleResult:
     for s in ctx.suspects[:50]:
         if isinstance(s, dict) and 'text' in s:
             fails += replay_text(bytes.fromhex(s['text']))
+
+    # (f) foreign encodings of EC private keys: the public point is optional (RFC 5915) and may be compressed
+    #     (openssl ec -no_public / -conv_form compressed); whatever the form, the key read back is the same key and
+    #     its exported public half is what every other form exports (the SSH blob always holds the uncompressed point)
+    ef, en = check_ec_point_forms(d)
+    fails += ef
+    res.evaluations += en
+    hist.hit('ec-point-forms', en)
 
     # (a) private formats x ciphers x hashes x versions x passphrases x comments ------------------------------
     combos: List[Tuple[str, Any, str, str, int]] = []
@@ -1462,6 +1526,10 @@ def _key_from(rep: Dict[str, Any]) -> Any:
 
 
 def replay(ctx: Ctx, rep: Dict[str, Any]) -> List[Failure]:
+    if rep.get('replay', rep).get('kind') == 'ec-point-form':
+        fs, _n = check_ec_point_forms(ctx.tmpdir())
+        r0 = rep.get('replay', rep)
+        return [f for f in fs if f.replay.get('form') == r0.get('form') and f.replay.get('container') == r0.get('container')]
     r = rep.get('replay', rep)
     kind = r.get('kind')
     if kind == 'private-roundtrip':
